@@ -139,7 +139,7 @@ def has_twin(u, hname):
     return 'kani::stub(' in pre
 
 
-CHECK_RE = re.compile(r'Check \d+: (?P<name>\S+)\n\s+- Status: (?P<status>\w+)\n\s+- Description: "(?P<desc>(?:[^"\\]|\\.|"(?!\n))*)"\n(?:\s+- Location: (?P<loc>[^\n]*)\n)?')
+CHECK_RE = re.compile(r'Check \d+: (?P<name>[^\n]+)\n\s+- Status: (?P<status>\w+)\n\s+- Description: "(?P<desc>(?:[^"\\]|\\.|"(?!\n))*)"\n(?:\s+- Location: (?P<loc>[^\n]*)\n)?')
 
 
 def norm(s):
@@ -210,6 +210,9 @@ def classify(u, hname, checks, verdict, contract_clauses):
             res['panics'].append({'desc': desc, 'loc': c.get('loc'), 'check': name})
         else:
             res['undecided'].append(f'status {status}: {desc}')
+    if verdict == 'FAILED' and not res['panics'] and not res['undecided'] and not any(v == 'FAILURE' for v in res['obls'].values()) \
+            and not any(v not in ('SATISFIED',) for v in res['covers'].values()) and not res['n_ignored']:
+        res['undecided'].append('kani reports FAILED but no failing check could be attributed (result parsing)')
     if res.get('n_undetermined') and not res['undecided']:
         res['undecided'].append(f'{res["n_undetermined"]} checks undetermined')
     return res
